@@ -41,7 +41,10 @@ RULE_ADDED = (
               'three requests. '
               ' '
               'Round 10: after the link failure the device may also be locked with an unsupport'
-              'ed UI version or a wrong echo: no PIN byte, no unlock. ')
+              'ed UI version or a wrong echo: no PIN byte, no unlock. '
+              ' '
+              'Round 11: a fifth of the Ledger configurations run in legacy (--version-one) mod'
+              'e. ')
 RULE = RULE + " " + RULE_ADDED.strip()
 ASSUMPTIONS = [
     "simulated device + fake transports trusted",
